@@ -643,7 +643,7 @@ func (e *Env) fieldOf(base TV, name, pos string) TV {
 				if g.Struct == nt.Obj().Name() && g.Name == name && nt.Obj().Pkg() != nil && nt.Obj().Pkg().Path() == g.Pkg {
 					gid := ghostFieldID(g)
 					s := e.ghostSort(g.Type)
-					return TV{Scalar{e.st.heap.readCell(s, Emb(base.V.(Scalar).T, gid))}, nil}
+					return TV{Scalar{e.st.heap.readCell(s, "ghost", Emb(base.V.(Scalar).T, gid))}, nil}
 				}
 			}
 		}
@@ -698,6 +698,25 @@ func (e *Env) evalIndex(x *Expr) TV {
 		}
 		return TV{e.fv.l.fromComps(at.Elem(), ts), at.Elem()}
 	case Scalar:
+		if base.T != nil {
+			if mt, ok := base.T.Underlying().(*types.Map); ok {
+				// Go map lookup in a specification: the zero value outside the domain
+				ks := e.fv.l.comps(mt.Key())
+				vcs := e.fv.l.comps(mt.Elem())
+				if len(ks) != 1 || vcs == nil {
+					e.fv.fail("%s: unsupported map type in specification", x.Pos)
+				}
+				k := idx.V.(Scalar).T
+				_, dom := e.fv.mapDom(e.st, mt, ks[0].sort)
+				in := And(Neq(b.T, NilRef), Select(Select(dom, b.T), k))
+				ts := make([]*Term, len(vcs))
+				for i, c := range vcs {
+					_, a := e.fv.mapArr(e.st, mt, ks[0].sort, i, c.sort)
+					ts[i] = Ite(in, Select(Select(a, b.T), k), e.fv.l.zeroOf(c.sort))
+				}
+				return TV{e.fv.l.fromComps(mt.Elem(), ts), mt.Elem()}
+			}
+		}
 		if b.T.Sort.Kind == SArray {
 			// ghost map
 			var it *Term
@@ -728,6 +747,12 @@ func (e *Env) evalCall(x *Expr) TV {
 	switch x.Name {
 	case "len":
 		a := arg(0)
+		if a.T != nil {
+			if _, ok := a.T.Underlying().(*types.Map); ok {
+				_, la := e.fv.mapLenArr(e.st)
+				return TV{Scalar{Select(la, a.V.(Scalar).T)}, types.Typ[types.Int]}
+			}
+		}
 		switch v := a.V.(type) {
 		case SliceV:
 			return TV{Scalar{v.Len}, types.Typ[types.Int]}
@@ -786,6 +811,17 @@ func (e *Env) evalCall(x *Expr) TV {
 		r := App("crc32ieee", IntSort, e.promote(arg(0)))
 		e.fv.side = append(e.fv.side, And(Le(IntLit(0), r), Le(r, IntLit(4294967295))))
 		return TV{Scalar{r}, nil}
+	case "has":
+		// has(m, k): k is in the domain of the Go map m
+		m := arg(0)
+		mt, ok := m.T.Underlying().(*types.Map)
+		if !ok {
+			e.fv.fail("%s: has() needs a map", x.Pos)
+		}
+		ks := e.fv.l.comps(mt.Key())
+		_, dom := e.fv.mapDom(e.st, mt, ks[0].sort)
+		mr := m.V.(Scalar).T
+		return TV{Scalar{And(Neq(mr, NilRef), Select(Select(dom, mr), arg(1).V.(Scalar).T))}, nil}
 	case "elemref":
 		a := arg(0)
 		return TV{Scalar{ElemRef(a.V.(Scalar).T, e.idxOf(arg(1)))}, nil}
@@ -996,6 +1032,42 @@ func (e *Env) evalLocs(xs []*Expr) []modLoc {
 	return out
 }
 
+// evalAllExcept evaluates modifies-all-except clauses.
+func (e *Env) evalAllExcept(mas []ModAllExcept) []modLoc {
+	var out []modLoc
+	for _, ma := range mas {
+		m := modLoc{kind: "allexcept", exceptFids: map[int]bool{}, exceptMaps: map[string]bool{}, exceptGhost: map[string]bool{}}
+		for _, tn := range ma.Types {
+			if strings.HasPrefix(tn, "ghost:") {
+				m.exceptGhost[strings.TrimPrefix(tn, "ghost:")] = true
+				continue
+			}
+			t, err := e.fv.P.ResolveType(e.pkg, tn)
+			if err != nil {
+				e.fv.fail("%s: %v", ma.Pos, err)
+			}
+			if _, isMap := t.Underlying().(*types.Map); isMap {
+				m.exceptMaps[typeKey(t)] = true
+				continue
+			}
+			st, ok := t.Underlying().(*types.Struct)
+			if !ok {
+				e.fv.fail("%s: modifies-all-except needs struct or map types, got %s", ma.Pos, tn)
+			}
+			owner := typeKey(t)
+			for i := 0; i < st.NumFields(); i++ {
+				m.exceptFids[fieldID(st, owner, i)] = true
+			}
+		}
+		if ma.Guard != nil {
+			m.guard = e.evalBool(ma.Guard)
+			e.fv.side = nil
+		}
+		out = append(out, m)
+	}
+	return out
+}
+
 // evalEach evaluates modifies-each clauses; the condition is a closure over the current (pre-)state.
 func (e *Env) evalEach(mes []ModEach) []modLoc {
 	var out []modLoc
@@ -1057,6 +1129,14 @@ func (e *Env) evalLoc(x *Expr) []modLoc {
 	}
 	switch x.Kind {
 	case ECall:
+		if x.Name == "mapof" {
+			a := e.eval(x.Args[0])
+			mt, ok := a.T.Underlying().(*types.Map)
+			if !ok {
+				e.fv.fail("%s: mapof() needs a map", x.Pos)
+			}
+			return []modLoc{{kind: "map", addr: a.V.(Scalar).T, typ: mt}}
+		}
 		if x.Name == "mem" || x.Name == "memcap" {
 			a := e.eval(x.Args[0])
 			switch v := a.V.(type) {
@@ -1159,7 +1239,7 @@ func (fv *FV) havoc(st *State, locs []modLoc, tag string) {
 				fv.havocTyped(st, m.typ, m.addr, tag)
 			}
 		case "gcell":
-			st.heap.writeCell(m.sort, m.addr, fv.fresh(tag+"_g", m.sort))
+			st.heap.writeCell(m.sort, "ghost", m.addr, fv.fresh(tag+"_g", m.sort))
 		case "fields":
 			fv.havocTyped(st, m.typ, m.addr, tag)
 		case "mem":
@@ -1181,6 +1261,21 @@ func (fv *FV) havoc(st *State, locs []modLoc, tag string) {
 			}
 		case "each":
 			fv.havocEach(st, m, tag)
+		case "allexcept":
+			fv.havocAllExcept(st, m, tag)
+		case "map":
+			mt := m.typ.(*types.Map)
+			ks := fv.l.comps(mt.Key())
+			for i, c := range fv.l.comps(mt.Elem()) {
+				key, a := fv.mapArr(st, mt, ks[0].sort, i, c.sort)
+				st.heap.arrays[key] = Store(a, m.addr, fv.fresh(tag+"_map", a.Sort.Elem))
+			}
+			dk, dom := fv.mapDom(st, mt, ks[0].sort)
+			st.heap.arrays[dk] = Store(dom, m.addr, fv.fresh(tag+"_mapdom", dom.Sort.Elem))
+			lk, la := fv.mapLenArr(st)
+			nl := fv.fresh(tag+"_maplen", IntSort)
+			st.assume(Ge(nl, IntLit(0)))
+			st.heap.arrays[lk] = Store(la, m.addr, nl)
 		case "ghost":
 			st.ghost[m.name] = fv.fresh(tag+"_"+m.name, m.sort)
 		case "ghostidx":
@@ -1206,7 +1301,7 @@ func (fv *FV) havocTyped(st *State, t types.Type, addr *Term, tag string) {
 				if g.Struct == nt.Obj().Name() && nt.Obj().Pkg() != nil && nt.Obj().Pkg().Path() == g.Pkg {
 					e := &Env{fv: fv, pkg: g.Pkg, st: st}
 					s := e.ghostSort(g.Type)
-					st.heap.writeCell(s, Emb(addr, ghostFieldID(g)), fv.fresh(tag+"_g", s))
+					st.heap.writeCell(s, "ghost", Emb(addr, ghostFieldID(g)), fv.fresh(tag+"_g", s))
 				}
 			}
 		}
@@ -1275,7 +1370,7 @@ func (fv *FV) applyGhostDef(env *Env, st *State, gd GhostDef) {
 		}
 		rhs := ne.eval(gd.Rhs).V.(Scalar).T
 		fv.flushSide(st)
-		st.heap.writeCell(locs[0].sort, locs[0].addr, rhs)
+		st.heap.writeCell(locs[0].sort, "ghost", locs[0].addr, rhs)
 		return
 	}
 	// ghost map path: name[i1][i2]...
@@ -1332,14 +1427,87 @@ func (fv *FV) havocEach(st *State, m modLoc, tag string) {
 	fv.nfresh++
 	a := BoundVar(fmt.Sprintf("a!ea%d", fv.nfresh), RefSort)
 	tgt := eachTarget(m, a)
-	for _, s := range []*Sort{IntSort, BoolSort, RefSort} {
-		key, cur := st.heap.cellArr(s)
-		nw := fv.fresh(tag+"_each_"+sortKey(s), cur.Sort)
+	for _, key := range fv.cellKeys(st) {
+		cur := st.heap.cellArrByKey(key)
+		nw := fv.fresh(tag+"_each_"+key, cur.Sort)
 		q := Forall([]*Term{a}, Implies(Not(tgt), Eq(Select(nw, a), Select(cur, a))))
 		if q.Op == "forall" {
 			q.Pats = [][]*Term{{Select(nw, a)}}
 		}
 		st.assume(q)
 		st.heap.arrays[key] = nw
+	}
+}
+
+
+// havocAllExcept replaces the whole heap and ghost state by fresh ones that agree with the old ones on the
+// protected cells (fields of the excepted struct types), protected maps and protected ghost variables.
+func (fv *FV) havocAllExcept(st *State, m modLoc, tag string) {
+	before := st.heap.clone()
+	ghostBefore := map[string]*Term{}
+	for k, v := range st.ghost {
+		ghostBefore[k] = v
+	}
+	fv.nfresh++
+	a := BoundVar(fmt.Sprintf("a!ax%d", fv.nfresh), RefSort)
+	prot := exceptTarget(m, a)
+	keys := fv.allKeys(st)
+	for key := range keys {
+		switch {
+		case strings.HasPrefix(key, "H:"):
+			cur := st.heap.cellArrByKey(key)
+			nw := fv.fresh(tag+"_all_"+key, cur.Sort)
+			q := Forall([]*Term{a}, Implies(prot, Eq(Select(nw, a), Select(cur, a))))
+			if q.Op == "forall" {
+				q.Pats = [][]*Term{{Select(nw, a)}}
+			}
+			st.assume(q)
+			st.heap.arrays[key] = nw
+		case strings.HasPrefix(key, "M:"):
+			parts := strings.SplitN(key[2:], "#", 2)
+			k := 0
+			fmt.Sscanf(parts[1], "%d", &k)
+			_, cur := st.heap.elemArr(sortFromKey(parts[0]), k)
+			st.heap.arrays[key] = fv.fresh(tag+"_all_"+key, cur.Sort)
+		case strings.HasPrefix(key, "MAP:") || strings.HasPrefix(key, "MAPDOM:"):
+			tk := strings.TrimPrefix(strings.TrimPrefix(key, "MAPDOM:"), "MAP:")
+			if i := strings.Index(tk, "#"); i >= 0 {
+				tk = tk[:i]
+			}
+			if m.exceptMaps[tk] {
+				continue
+			}
+			st.heap.arrays[key] = fv.fresh(tag+"_all_map", st.heap.arrays[key].Sort)
+		case key == "MAPLEN":
+			cur := st.heap.arrays[key]
+			st.heap.arrays[key] = fv.fresh(tag+"_all_maplen", cur.Sort)
+		}
+	}
+	for name, g := range fv.P.Specs.GhostV {
+		if m.exceptGhost[name] {
+			continue
+		}
+		e := &Env{fv: fv, pkg: g.Pkg, st: st}
+		st.ghost[name] = fv.fresh(tag+"_all_"+name, e.ghostSort(g.Type))
+	}
+	if m.guard != nil {
+		for k, nv := range st.heap.arrays {
+			ov, ok := before.arrays[k]
+			if !ok {
+				ov = before.initial(k)
+			}
+			if ov != nil && ov != nv && ov.Sort == nv.Sort {
+				st.heap.arrays[k] = Ite(m.guard, nv, ov)
+			}
+		}
+		for name, nv := range st.ghost {
+			ov, ok := ghostBefore[name]
+			if !ok {
+				ov = Var("G_"+sanitize(name)+"_0", nv.Sort)
+			}
+			if ov != nv {
+				st.ghost[name] = Ite(m.guard, nv, ov)
+			}
+		}
 	}
 }
